@@ -18,7 +18,7 @@ from vf.specs import ALL_FAMILIES, build, loggrid
 ID = "C17"
 LEVEL = "exploration"
 RULE = (
-    "Hypothesis draws C04-style fresh runs (all families/boxes/starts, callable gradient, ftarget float/callable/None, stopping callback, all budgets) and a scaler value s = 10^u, u in [-3,3] "
+    "Hypothesis draws C04-style fresh runs (all families/boxes/starts, callable gradient -- and differenced gradients {None, 2-point, 3-point} with power-of-two scalers, for which multiplication by s is exact --, ftarget float/callable/None, stopping callback, all budgets) and a scaler value s = 10^u, u in [-3,3] "
     "(powers of two included on purpose) or the packaged projected-gradient unit scaler; the user gradient either returns fresh arrays or one reused output buffer. Run 1 uses gradient_scaler; run 2 minimises the harness-built objective s*f, s*grad f without scaler "
     "(ftarget multiplied by s when s is a power of two; otherwise the target clause is judged on run 1 alone). non-trivial = >=2 iterations and s outside [0.5, 2]; distinct = distinct spec"
 )
@@ -57,11 +57,13 @@ def check(spec, stats=None):
         raise t1.exc
     require(t1.user_array_modified == 0, "user-gradient-array-untouched", "the array returned by the user's gradient was modified by the library")
     # scaler protocol
+    mode = rspec.get("jac", "callable")
     if t1.res["njev"] >= 1:
         require(len(t1.scaler_calls) == 1, "scaler-invoked-once", f"scaler called {len(t1.scaler_calls)} times although a gradient was computed")
         c = t1.scaler_calls[0]
         require(np.array_equal(c["x"], x0c), "scaler-arguments", "scaler not called with the (clipped) start point")
-        require(np.array_equal(c["g"], prob.obj.g(x0c)), "scaler-arguments", f"scaler not called with the unscaled gradient at the start: got {c['g'].tolist()} want {prob.obj.g(x0c).tolist()}")
+        if mode == "callable":
+            require(np.array_equal(c["g"], prob.obj.g(x0c)), "scaler-arguments", f"scaler not called with the unscaled gradient at the start: got {c['g'].tolist()} want {prob.obj.g(x0c).tolist()}")
         require(np.array_equal(c["lb"], prob.lb) and np.array_equal(c["ub"], prob.ub), "scaler-arguments", "scaler not called with the bounds")
     else:
         require(len(t1.scaler_calls) <= 1, "scaler-invoked-once", f"scaler called {len(t1.scaler_calls)} times")
@@ -107,15 +109,18 @@ def check(spec, stats=None):
     if stats is not None:
         stats.case(spec, t1.res["nit"] >= 2 and not (0.5 <= s <= 2.0),
                    [f"scaler={'unit' if sc == 'unit' else 'pow2' if is_pow2(s) else 'const'}", f"compared={compare}", f"jac_style={style}", f"msg={t1.res['message'][:26]}",
-                    f"nit={'0' if t1.res['nit'] == 0 else '1' if t1.res['nit'] == 1 else '2+'}"],
+                    f"nit={'0' if t1.res['nit'] == 0 else '1' if t1.res['nit'] == 1 else '2+'}", f"jac={mode}"],
                    sample={"family": rspec["problem"]["obj"]["family"], "s": s, "cfg": rspec["cfg"], "ftarget": rspec.get("ftarget"), "compared_bitwise": compare})
 
 
 @st.composite
 def strategy(draw):
-    r = draw(run_spec(families=ALL_FAMILIES, n_max=8, jac_modes=("callable",), maxiter=(0, 30), maxfun=(1, 150), units=True, ftols=(0.0, 1e-12, 1e-5, 1e-2), gtols=(1e-8, 1e-5, 1e-3),
+    r = draw(run_spec(families=ALL_FAMILIES, n_max=8, jac_modes=("callable", "callable", "callable", None, "2-point", "3-point"), maxiter=(0, 30), maxfun=(1, 150), units=True, ftols=(0.0, 1e-12, 1e-5, 1e-2), gtols=(1e-8, 1e-5, 1e-3),
                       with_ftarget=True, with_callback_stop=True, gtol_callable=True))
     k = draw(st.sampled_from(["const", "const", "pow2", "unit"]))
+    if r["jac"] != "callable":
+        # with a differenced gradient the two runs are bit-identical only when multiplying by s is exact
+        k = "pow2"
     if k == "const":
         sc = draw(loggrid(-3, 3, 60))
     elif k == "pow2":
